@@ -65,9 +65,10 @@ def main():
     checks = (args.checks or args.property).split(",")
     dest = os.path.join(V, "seeded", args.seed_id)
     os.makedirs(dest, exist_ok=True)
-    for f in glob.glob(os.path.join(args.dir, "*")):
-        if os.path.isfile(f) and os.path.basename(f) not in ("go.mod", "go.sum"):
-            shutil.copy(f, dest)
+    if os.path.abspath(args.dir) != os.path.abspath(dest):
+        for f in glob.glob(os.path.join(args.dir, "*")):
+            if os.path.isfile(f) and os.path.basename(f) not in ("go.mod", "go.sum"):
+                shutil.copy(f, dest)
     meta = {"seed": args.seed_id, "property": args.property, "needs_to_manifest": args.needs, "ran": []}
     scratch = tempfile.mkdtemp(prefix="verif-seed-", dir="/tmp")
     try:
